@@ -330,7 +330,8 @@ def impl(case):
     raise ValueError(k)
 
 def make_table(cols, nans):
-    return dictable(**{c: [build(x, nans) for x in cells] for c, cells in cols})
+    # as a dict, not as keyword arguments: columns may be called like the constructor's own parameters ('data', 'columns')
+    return dictable({c: [build(x, nans) for x in cells] for c, cells in cols})
 
 def canon_table(t, nans):
     return [[str(c), [canon(x, nans) for x in t[c]]] for c in t.keys()]
@@ -523,7 +524,7 @@ def rand_sort_list(rng, tier):
     return [sc(mode) for _ in range(n)]
 
 COLS = ['a', 'b', 'c', 'd']
-NAMEPOOL = ['a', 'b', 'c', 'd', 'key', 'name', 'date', 'x y', 'A', 'len', 'keys', 'items', 'values', 'Key', 'col_1', 'z9']     # dict methods, builtins, a space, cases
+NAMEPOOL = ['a', 'b', 'c', 'd', 'key', 'name', 'date', 'x y', 'A', 'len', 'keys', 'items', 'values', 'Key', 'col_1', 'z9', 'columns', 'data', 'function', 'other', 'value']     # dict methods, builtins, a space, cases
 def rand_column(rng, n, mode=None):
     mode = mode or rng.choice(['ints', 'ints', 'nums', 'numsnan', 'strs', 'mixed', 'mixed', 'dates', 'none', 'bin', 'bin', 'huge'])
     out = []
@@ -543,7 +544,12 @@ def rand_table(rng, tier, nmax=8):
     ncol = rng.choice([2, 2, 3, 3, 4])
     n = rng.choice([0, 1, 2, 3, 4, 5, 6, nmax])
     cols = []; modes = {}
-    for c in (COLS[:ncol] if rng.random() < 0.5 else rng.sample(NAMEPOOL, ncol)):
+    names = COLS[:ncol] if rng.random() < 0.5 else rng.sample(NAMEPOOL, ncol)
+    if rng.random() < 0.12:                    # the dictable constructor's own parameter names as column names
+        names = [x for x in names if x not in ('columns', 'data')]
+        extra = ['columns', 'data'] if rng.random() < 0.5 else [rng.choice(['columns', 'data'])]
+        names = (extra + names)[:ncol]; rng.shuffle(names)
+    for c in names:
         m, cells = rand_column(rng, n)
         cols.append([c, cells]); modes[c] = m
     return cols, modes, n
